@@ -4,6 +4,7 @@
 mod bench;
 mod c06;
 mod c15;
+mod c19;
 mod engine;
 mod progs;
 mod shim;
@@ -24,6 +25,7 @@ fn main() {
     match args[1].as_str() {
         "C06" => c06::run(tier),
         "C15" => c15::run(tier),
+        "C19" => c19::run(tier),
         other => mcx::machinery(format!("unknown property {other}")),
     }
 }
